@@ -84,7 +84,7 @@ func propC17(c *Ctx) {
 	}
 	if fn := c.Fn(y4, "waiter.NewChannelEntry"); fn != nil {
 		n := 0
-		Instrs(fn, func(in ssa.Instruction) {
+		InstrsInline(fn, func(in ssa.Instruction) {
 			if mc, ok := in.(*ssa.MakeChan); ok {
 				n++
 				c.Check(Term(mc.Size) == "1", y4, FuncName(fn)+"/capacity", c.pos(in), "channel capacity 1", "channel capacity is "+Term(mc.Size)+": with 0 the token is lost when nobody is receiving")
